@@ -9,7 +9,10 @@
    property (design-level evidence for DESIGN.md section 7, D4) - recorded as a note, never a verdict.
 2. harness/cmd/bfdfsm runs the real code: the transition table, real Sessions fed complete sets of short
    packet histories and seeded long ones through ReceiveMessage (hook H3 records every step of
-   Session.Run), and pairs of real Sessions over a seeded lossy/injecting link that becomes lossless.
+   Session.Run) incl. timed histories (the expiry must not come before, nor long after, received Detect
+   Mult x max(local Required Min RX, received Desired Min TX)), pairs of real Sessions over a seeded
+   lossy/injecting link that becomes lossless, and a real Session against a scripted RFC 5880 peer that
+   selects its session by Your Discriminator (undisturbed / after a stray packet / after a peer restart).
 3. TLC validates every recorded step against BFDOps!Rfc (BFDTrace.tla).
 """
 import re
@@ -24,6 +27,16 @@ def run(c):
         c.mc("BFD", "BFDMC.nofault.cfg", timeout=600)
         if c.thorough:       # Budget 2 with injected foreign My Discriminators as well
             c.mc("BFD", "BFDMC.foreign.cfg", timeout=3000)
+            # ... and with a peer that selects its session strictly by Your Discriminator
+            c.mc("BFD", "BFDMC.strict.cfg", timeout=3000)
+        r = c.tlc("BFD", "BFDMC.stale.cfg", timeout=600)
+        if r.prop_violated or re.search(r"Temporal property Recovers was violated", r.out):
+            c.notes.append("design level: a session that learns the remote discriminator only while it is zero "
+                           "(router/bfd before the repair) never recovers against an RFC peer that selects its "
+                           "session by Your Discriminator after one stray packet - TLC counterexample to "
+                           "<>[](both Up) (%d states)" % r.distinct)
+        else:
+            raise vlib.Infra("BFDMC.stale.cfg was expected to violate Recovers\n" + r.out[-2000:])
         r = c.tlc("BFD", "BFDMC.code.cfg", timeout=600)
         # (this TLC prints "Temporal property Recovers was violated"; vlib only knows the plural form)
         if r.prop_violated or re.search(r"Temporal property Recovers was violated", r.out):
@@ -73,7 +86,9 @@ def run(c):
     c.assumptions += ["timing is not judged: a detection-timer step is accepted at any point; the only "
                       "time-dependent observations use margins of 10 s (expiry of a 2 ms detection time) and "
                       "30 s (both sessions Up after the link became lossless; the protocol needs about 2 s)",
-                      "sessions are selected by link, not by Your Discriminator (as in the router); the value of "
-                      "the remote discriminator is compared as drift only",
+                      "the sessions under test are selected by link, not by Your Discriminator (as in the router); "
+                      "their peers may select strictly (RFC peer scenarios, BFDMC.strict/stale.cfg)",
+                      "expiry is never accepted before the detection time (a timer cannot fire early, elapsed time "
+                      "is measured from before it was armed); lateness is judged with 5 s slack",
                       "packets using unsupported features (auth, poll/final, echo, demand) may be discarded",
                       "hook H3 (router/bfd/export_verif.go) reports the state after each step from inside Session.Run"]
